@@ -38,10 +38,21 @@ def inlinable_target(facts, ce):
         fb = _local_from_impl(facts, ce)
         if fb is not None:
             return fb
+        if (ce.get("trait") or "") == "std::convert::From" and ce.get("name") == "from" and (ce.get("resolved") or {}).get("local"):
+            fb = facts.raw_bodies.get(ce["resolved"]["key"])
+            if fb is not None:
+                return fb
     if ce is None or not ce.get("local"):
         return None
     if ce.get("kind") not in ("Fn", "AssocFn"):
         return None
+    if (ce.get("trait") or "") == "std::convert::From" and ce.get("name") == "from":
+        # a crate-local conversion (`Span::from(pair)`): what it builds is in its body, the
+        # generic "conversions preserve the value" reading does not apply to a local impl
+        res = ce.get("resolved") or {}
+        fb = facts.raw_bodies.get(res.get("key")) if res.get("local") else facts.raw_bodies.get(ce.get("key"))
+        if fb is not None and (fb.get("owner") or {}).get("trait") == "std::convert::From":
+            return fb
     if classify(ce) != "unclassified" or callee_tag(ce) in TARGET_ARG:
         return None
     res = ce.get("resolved")
